@@ -505,7 +505,8 @@ func runE2E(c *vh.Ctx, rounds int) {
 				if round == 0 { // the fixed corpus: the F-15 witness shape (short name, default config) runs first, always
 					secret = secrets[1]
 				}
-				env.run(c, id, sc, secret, uint8(r.Intn(256)), maxNames[(idx+round)%len(maxNames)], aeadSets[(idx/3+round)%len(aeadSets)], idx, round == 0)
+				env.run(c, id, sc, secret, uint8(r.Intn(256)), maxNames[(idx+round)%len(maxNames)], aeadSets[(idx/3+round)%len(aeadSets)], idx,
+					round == 0 && (c.Tier != "quick" || id.Name == "Firefox_120" || id.Name == "Chrome_133"))
 				idx++
 			}
 		}
